@@ -123,20 +123,42 @@ package crdt
 //@   ensures others: forall a int :: imp(result1 == nil && a != akey(key), has(T(*newTree), a) == old(has(T(*newTree), a)) && T(*newTree)[a] == old(T(*newTree)[a]))
 //@   ensures error-stops: imp(result1 != nil, !result0)
 
-// mergeTrees drives mast.DiffIter with the per-key callback. ASSUMED (the
-// iterator is a dependency and higher-order): DiffIter delivers every key whose
-// entries differ exactly once with the flags described above and skips equal
-// entries; so for one graft the result holds, per key, the callback's choice.
-//@ func mergeTrees
+// The adapter between mast.DiffIter's callback and a MergeFunc: every argument
+// is handed on unchanged (flags, key, both values, the tree under construction)
+// and the merge function's verdict and error are the adapter's.
+//@ func (MergeFunc).ToDiffFunc
+//@   returns-closure
+//@ func (MergeFunc).ToDiffFunc$1#mf
 //@   trusted
+//@   modifies *arg1
+//@ func (MergeFunc).ToDiffFunc$1
+//@   requires mf != nil && ctx != nil && m != nil && conflictCB != nil && *m != nil && *mf != nil
+//@   modifies **m
+//@   at call:funcvalue assert handed-on-unchanged: arg0 == *ctx && arg1 == *m && arg2 == added && arg3 == removed && arg4 == key && arg5 == addedValue && arg6 == removedValue && arg7 == *conflictCB
+//@   ensures-local verdict-and-error-returned: result0 == ok && result1 == err_local
+
+// mergeTrees drives mast.DiffIter with the per-key callback. Verified here: the
+// merge works on a clone (the primary is never written), the clone is diffed
+// against the graft (not the other way round), the callback writes into that
+// clone, and a failure returns no tree. ASSUMED (the iterator is a dependency
+// and higher-order): DiffIter delivers every key whose entries differ exactly
+// once with the flags described above and skips equal entries; so for one
+// graft the result holds, per key, the callback's choice.
+//@ func mergeTrees
 //@   requires primary != nil && len(grafts) == 1 && grafts[0] != nil
 //@   modifies nothing
-//@   ensures imp(err == nil, result0 != nil && fresh(result0) && fresh(*result0))
-//@   ensures forall a int :: imp(err == nil, has(T(*result0), a) == (has(T(*primary), a) || has(T(*grafts[0]), a)))
-//@   ensures forall a int :: imp(err == nil && has(T(*primary), a) && !has(T(*grafts[0]), a), T(*result0)[a] == T(*primary)[a])
-//@   ensures forall a int :: imp(err == nil && !has(T(*primary), a) && has(T(*grafts[0]), a), T(*result0)[a] == T(*grafts[0])[a])
-//@   ensures forall a int :: imp(err == nil && has(T(*primary), a) && has(T(*grafts[0]), a) && T(*primary)[a] == T(*grafts[0])[a], T(*result0)[a] == T(*primary)[a])
-//@   ensures imp(err != nil, result0 == nil)
+//@   ensures result-fresh: imp(err == nil, result0 != nil && fresh(result0))
+//@   ensures-assumed imp(err == nil, fresh(*result0))
+//@   ensures-assumed forall a int :: imp(err == nil, has(T(*result0), a) == (has(T(*primary), a) || has(T(*grafts[0]), a)))
+//@   ensures-assumed forall a int :: imp(err == nil && has(T(*primary), a) && !has(T(*grafts[0]), a), T(*result0)[a] == T(*primary)[a])
+//@   ensures-assumed forall a int :: imp(err == nil && !has(T(*primary), a) && has(T(*grafts[0]), a), T(*result0)[a] == T(*grafts[0])[a])
+//@   ensures-assumed forall a int :: imp(err == nil && has(T(*primary), a) && has(T(*grafts[0]), a) && T(*primary)[a] == T(*grafts[0])[a], T(*result0)[a] == T(*primary)[a])
+//@   ensures failure-returns-no-tree: imp(err != nil, result0 == nil)
+//@   ensures-local iterator-failure-fails-the-merge: imp(err == nil, err_local == nil)
+//@   at call:mast.(*Mast).DiffIter assert clone-diffed-against-graft: arg0 == addr(newTree) && arg0 != primary && arg2 == graft
+//@   at call:crdt.(MergeFunc).ToDiffFunc assert callback-writes-the-clone: arg0 == mergeFunc && arg2 == addr(newTree) && arg3 == conflictCB
+//@   loop 1 invariant fresh(addr(newTree)) && -1 <= rangeindex && rangeindex < 9223372036854775807
+//@   loop 1 invariant forall j int :: imp(0 <= j && j < len(grafts), grafts[j] == old(grafts[j]))
 
 //@ func convertMergeFunc
 //@   modifies nothing
